@@ -144,21 +144,6 @@ func (s *Sim) Deactivate() {
 	cur.CompareAndSwap(s, nil)
 }
 
-func goid() uint64 {
-	var buf [48]byte
-	n := runtime.Stack(buf[:], false)
-	// "goroutine 123 ["
-	var id uint64
-	for i := 10; i < n; i++ {
-		c := buf[i]
-		if c < '0' || c > '9' {
-			break
-		}
-		id = id*10 + uint64(c-'0')
-	}
-	return id
-}
-
 func (s *Sim) weight(site string) int {
 	if len(s.cfg.HotFiles) == 0 {
 		return 1
